@@ -209,6 +209,23 @@ def C12(ctx):
     ctx.run(cases, runtime=True, switches=W_ONLY)
 
 
+# ------------------------------------------------------------------ C17 / C18 / C19 (command line)
+def C17(ctx):
+    import cli
+    ctx.rules.append('WireCli model-checked exhaustively (every (sources, disk) state x every command); TLC -simulate generates command histories over '
+                     '{edit to variant okA/okB/bad/noinj/typeerr, gen (header none/ok/unreadable, prefix, tags, default-command form), diff, check, show, delete output, clobber output with stale/broken/garbage} on two packages; '
+                     'each history is replayed against the real binary in a fresh sandbox with a hash snapshot of the whole tree around every command; '
+                     'non-trivial = distinct (command, arguments, sources, disk-before) combinations; judge: WireCliTrace with CkStatus+CkFootprint')
+    cli.run(ctx, (True, True, False, False), 40 if ctx.quick else 600, 12 if ctx.quick else 20)
+
+
+def C18(ctx):
+    import cli
+    ctx.rules.append('same machine and histories as C17; the content of every output file after every step is projected by byte comparison with a from-scratch generation '
+                     'of the same sources and options in a pristine copy; judge: WireCliTrace with CkRegen (after a successful gen the file is what a fresh checkout gets, gen again changes nothing, diff right after gen exits 0)')
+    cli.run(ctx, (False, False, True, False), 40 if ctx.quick else 600, 14 if ctx.quick else 30)
+
+
 PROPS = {
     'C02': dict(fn=C02, level='model_checking'),
     'C03': dict(fn=C03, level='model_checking'),
@@ -221,6 +238,8 @@ PROPS = {
     'C10': dict(fn=C10, level='model_checking'),
     'C11': dict(fn=C11, level='model_checking'),
     'C12': dict(fn=C12, level='model_checking'),
+    'C17': dict(fn=C17, level='model_checking'),
+    'C18': dict(fn=C18, level='model_checking'),
 }
 
 
